@@ -546,7 +546,7 @@ VH_GW = [None,
          {'type': 'list', 'ips': ['10.0.0.1']}, {'type': 'set', 'ips': ['10.0.0.1']},
          {'type': 'tuple', 'ips': ['10.0.0.1', '10.0.0.2']}, {'type': 'list', 'ips': ['127.0.0.1']}]
 VH_IPS = ['10.0.0.1', '10.0.0.2', '10.0.0.11', '127.0.0.1', '192.168.7.7']
-VH_HOSTS = ['plain.example', 'site2.example', 'evil.example', 'site2.example:8000']
+VH_HOSTS = ['plain.example', 'site2.example', 'evil.example', 'site2.example:8000', None]     # None: HTTP/1.0 request without Host
 VH_XFH = [None, 'evil.example', 'site2.example', 'unknown.example', 'evil.example, site2.example',
           ' evil.example ,plain.example', 'EVIL.example', '', ', evil.example', 'plain.example, evil.example']
 VH_PATHS = ['/', '/page']
@@ -945,7 +945,10 @@ class C20(Prop):
         first = xfh.split(',')[0].strip() if xfh is not None else ''
         try:
             def go(n, host, fwd):
-                lines = ['GET %s HTTP/1.1' % spec['path'], 'Host: ' + host, 'Connection: close']
+                if host is None:
+                    lines = ['GET %s HTTP/1.0' % spec['path']]
+                else:
+                    lines = ['GET %s HTTP/1.1' % spec['path'], 'Host: ' + host, 'Connection: close']
                 if fwd is not None:
                     lines.append('X-Forwarded-Host: ' + fwd)
                 s = rig.sock(n, peer=spec['ip'])
@@ -965,7 +968,9 @@ class C20(Prop):
                 classes.append('vhost:not-asserted')
                 return Result(True, nontrivial=False, classes=classes)
             trusted = spec['ip'] in gw['ips']
-            elsewhere = bool(first) and VH_DOMAINS.get(first.lower(), '') != VH_DOMAINS.get(spec['host'], '')
+            elsewhere = bool(first) and VH_DOMAINS.get(first.lower(), '') != VH_DOMAINS.get(spec['host'] or '', '')
+            if not spec['host']:
+                classes.append('vhost:no-host-header' if spec['host'] is None else 'vhost:empty-host-header')
             if not trusted:
                 classes.append('vhost:untrusted')
                 if xfh is not None and elsewhere:
